@@ -11,7 +11,7 @@ use serde::{Deserialize, Serialize};
 use soroban_sdk::xdr::ScVal;
 use soroban_sdk::Address;
 
-const X: &str = "ethereum";
+const X: &str = "Ethereum-Sepolia";
 const Z: &str = "untrusted-chain";
 const SALT: [u8; 32] = [0x51; 32];
 const UNKNOWN: [u8; 32] = [0x99; 32];
